@@ -40,6 +40,8 @@ def make_globals():
         "seq0": [], "seq1": ["only"], "seq2": ["a", "b"], "seq3": ["x", "y<", "z"], "m": {"k": "vk", "n": {"d": "deep"}, "l": ["l0", "l1"]},
         "fn": fn, "obj": Obj(), "tup": ("t0", "t1"),
         "recs": [{"label": "A", "flag": 1}, {"flag": 0}, {"label": "C<", "flag": 1}, {"flag": 0, "label": ""}],
+        # mappings whose keys are digit strings; sequences nested in mappings nested in sequences
+        "years": {"2024": {"era": "now"}, "0": "zero-key", "1999x": "mixed"}, "nested": [["n00", "n01"], {"k": ["deep0"], "7": "seven"}],
     }
 
 
@@ -106,6 +108,29 @@ def nested_templates(tier):
             inner = element(tag="span", body="child-body", static='class="c" title="child-title"', **c2)
             after = element(tag="b", body="after", static="", content=("c", "v1 | it | string:restored"))
             out.append("<html><body>" + element(body="[" + inner + "]", **p) + after + "</body></html>")
+    return out
+
+
+PATH_EXPRS = [
+    "years/2024/era", "years/0", "years/1999x", "years/1999 | string:none", "exists:years/2024", "not:exists:years/7", "exists:years/007", "seq2/0", "seq2/-1", "seq2/2 | string:out-of-range",
+    "seq2/x | string:not-a-number", "tup/1", "tup/-2", "m/l/0", "m/l/-1", "m/n/d", "nested/0/1", "nested/1/k/0", "nested/1/7", "nested/1/7/0 | string:into-a-string", "nested/2 | nested/0/0",
+    "string:${years/0}-${seq2/0}-$s1-${nested/1/7}", "years/2024 | missing", "missing | years/0", "nocall:years/0", "exists:seq2/5", "path:years/0", "recs/0/label", "recs/1/label | string:nolabel",
+    "recs/3/label", "recs/-1/flag", "seq3/1", "not:years/0", "not:seq0/0", "string:$years/0 end", "years/2024/era | default", "seq0/0 | nothing", "m/l/2 | m/l/1", "exists:nested/1/k/0", "nocall:nested/1/k",
+]
+
+
+def path_templates():
+    """Path traversal through every kind of container, in every position an expression can stand."""
+    out = []
+    for e in PATH_EXPRS:
+        out.append('<html><body><p tal:content="%s">c</p></body></html>' % e)
+        out.append('<html><body><p tal:replace="%s">r</p>after</body></html>' % e)
+        out.append('<html><body><p tal:condition="%s">shown</p><p tal:condition="not:%s">not shown</p></body></html>' % (e, e) if not e.startswith(("string:", "not:")) and "|" not in e else '<html><body><p tal:condition="%s">shown</p></body></html>' % e)
+        out.append('<html><body><a href="#" tal:attributes="href %s; title %s">a</a></body></html>' % (e.replace(";", ";;"), e.replace(";", ";;")))
+        out.append('<html><body><div tal:define="v %s"><i tal:content="v">i</i><b tal:content="string:[$v]">b</b></div></body></html>' % e.replace(";", ";;"))
+        out.append('<html><body><span tal:omit-tag="%s">kept text</span></body></html>' % e)
+        if e != "years/2024 | missing":  # (a mapping is not something tal:repeat is defined on)
+            out.append('<html><body><ul><li tal:repeat="x %s" tal:content="string:${repeat/x/number}:${x}">li</li></ul></body></html>' % e)
     return out
 
 
@@ -397,7 +422,8 @@ def run(ck):
     nested = nested_templates(ck.tier)
     metal = metal_templates()
     trees = tree_templates(ck.tier)
-    items = list(dict.fromkeys(singles + nested + metal + trees))
+    paths = path_templates()
+    items = list(dict.fromkeys(singles + nested + metal + trees + paths))
     if ck.seed:
         import random
 
